@@ -697,6 +697,14 @@ func ReadRequest(b *bfe_bufio.Reader, maxUriBytes int) (req *Request, err error)
 	req.Header = Header(mimeHeader)
 	req.HeaderKeys = headerKeys
 
+	// RFC 7230 3.2.4: a field-name is a token; in particular a request with
+	// whitespace between the field-name and the colon must be rejected.
+	for _, key := range headerKeys {
+		if !validHeaderFieldName(key) {
+			return nil, &badStringError{"malformed HTTP header field name", key}
+		}
+	}
+
 	// RFC2616: Must treat
 	//	GET /index.html HTTP/1.1
 	//	Host: www.google.com
